@@ -1,21 +1,19 @@
-SPECIFICATION TraceSpec
+SPECIFICATION CSpec
 CONSTANTS
   SlotsPerEpoch = 32
   Slots = {0}
   GivenEpochs = {0}
-  MaxBatch = 8
-  NReq = 4
-  ForkEpochs = {0}
-  NVal = 4
-  Committees = {1}
-  CallerSlots = {0}
-  MaxDuty = 1
+  MaxBatch = 3
+  NReq = 2
+  ForkEpochs = {10}
+  NVal = 3
+  Committees = {1, 2}
+  CallerSlots = {319, 320}
+  MaxDuty = 3
   Pairing = "by_validator"
-  Sequential = FALSE
+  Sequential = TRUE
   CallerOps <- OpsBoth
-  AcctChoices <- AcctNone
+  AcctChoices <- AcctAll
 INVARIANTS TypeOK CallerTypeOK DomainRight Memoryless HandedOwn SigCorrect NoSignatureWithoutDomain ErrorHasNoSignatures RefusedForCause PairedOwn SubmittedRight
-PROPERTIES TraceReplyStable
-CONSTRAINT HWM
-POSTCONDITION TraceAccepted
+PROPERTIES ReplyStable
 CHECK_DEADLOCK FALSE
